@@ -5,6 +5,7 @@ import (
 	"io"
 	"sync"
 
+	"github.com/fxamacker/cbor/v2"
 	cose "github.com/veraison/go-cose"
 
 	"verifharness/bridge"
@@ -131,9 +132,16 @@ func (m *libMsg) discardRaw() {
 	}
 }
 
+// discardEmpty: the caller drops the retained raw bytes by truncating them (an empty non-nil slice)
+// instead of assigning nil
+var discardEmpty bool
+
 func discardHeaders(h *cose.Headers) {
 	h.RawProtected = nil
 	h.RawUnprotected = nil
+	if discardEmpty {
+		h.RawProtected, h.RawUnprotected = cbor.RawMessage{}, make(cbor.RawMessage, 0, 8)
+	}
 	for _, v := range h.Unprotected {
 		switch c := v.(type) {
 		case *cose.Countersignature:
